@@ -31,9 +31,11 @@ const (
 	Count
 	Has
 	Wait
+	PubRace   // PublishContext with the execution's shared cancellable context (CancelCtx cancels it, from another task as a rule)
+	CancelCtx // cancels that context
 )
 
-var opNames = map[OpK]string{Sub: "Sub", Unsub: "Unsub", Clear: "Clear", ClearAll: "ClearAll", Pub: "Pub", PubCancelled: "PubCancelled", Count: "Count", Has: "Has", Wait: "Wait"}
+var opNames = map[OpK]string{Sub: "Sub", Unsub: "Unsub", Clear: "Clear", ClearAll: "ClearAll", Pub: "Pub", PubCancelled: "PubCancelled", Count: "Count", Has: "Has", Wait: "Wait", PubRace: "PubWithSharedContext", CancelCtx: "CancelSharedContext"}
 
 // Op is one API call. Ty indexes the three picked types (0 and 1 share a shard).
 type Op struct {
@@ -42,6 +44,9 @@ type Op struct {
 	Slot int
 	O    evt.SubOpts
 	Odd  bool // Pub: publish an odd event id (rejected by filter 1)
+	// Panic (Pub): every handler that receives this event panics (after it was counted as a
+	// delivery); the bus recovers the panic, nothing else changes
+	Panic bool
 }
 
 func (o Op) String() string {
@@ -66,9 +71,12 @@ func (o Op) String() string {
 		}
 	case Unsub:
 		s += fmt.Sprintf(",s%d", o.Slot)
-	case Pub, PubCancelled:
+	case Pub, PubCancelled, PubRace:
 		if o.Odd {
 			s += ",odd"
+		}
+		if o.Panic {
+			s += ",handlers-panic"
 		}
 	}
 	return s + ")"
@@ -146,6 +154,9 @@ type Inst struct {
 	NoProbe bool
 	// MidPoint adds an explicit scheduling point inside handler bodies.
 	MidPoint bool
+
+	raceCtx    context.Context
+	raceCancel context.CancelFunc
 }
 
 func New(p *Prog) *Inst { return &Inst{P: p} }
@@ -182,6 +193,10 @@ func (in *Inst) exec(id int, o Op) {
 		ctx, cancel := context.WithCancel(context.Background())
 		cancel()
 		t.PubCtx(in.Bus, ctx, evID(id, o.Odd))
+	case PubRace:
+		t.PubCtx(in.Bus, in.raceCtx, evID(id, o.Odd))
+	case CancelCtx:
+		in.raceCancel()
 	case Count:
 		r = t.Count(in.Bus)
 	case Has:
@@ -199,11 +214,22 @@ func (in *Inst) exec(id int, o Op) {
 func (in *Inst) Body() {
 	in.ops = in.P.flat()
 	in.res = make([]int, len(in.ops))
+	panics := map[int]bool{}
+	for id, o := range in.ops {
+		if o.Panic {
+			panics[evID(id, o.Odd)] = true
+		}
+	}
+	in.raceCtx, in.raceCancel = context.WithCancel(context.Background())
+	defer in.raceCancel()
 	evt.Deliver = func(ti, slot, id int, ctx context.Context) {
 		in.Rec.Add("h", tyIndex(ti)*10+slot, id, "")
 		if in.MidPoint {
 			vrt.Point()
 			in.Rec.Add("hx", tyIndex(ti)*10+slot, id, "")
+		}
+		if panics[id] {
+			panic("handler panics on this event")
 		}
 	}
 	evt.FilterHook = nil
@@ -375,7 +401,7 @@ func (in *Inst) Check(res *vrt.Result) []vrt.Violation {
 		tySlot, ev := k[0], k[1]
 		ty, slot := tySlot/10, tySlot%10
 		pubID := ev / 2
-		if pubID >= n || (in.ops[pubID].K != Pub && in.ops[pubID].K != PubCancelled) || in.ops[pubID].Ty != ty {
+		if pubID >= n || (in.ops[pubID].K != Pub && in.ops[pubID].K != PubCancelled && in.ops[pubID].K != PubRace) || in.ops[pubID].Ty != ty {
 			bad("misrouted", fmt.Sprintf("handler t%d/s%d received event %d it was never published for", ty, slot, ev), fmt.Sprintf("count=%d", c))
 		}
 		if len(groups[[2]int{ty, slot}]) == 0 {
@@ -388,7 +414,7 @@ func (in *Inst) Check(res *vrt.Result) []vrt.Violation {
 		onceTotal, onceMust := 0, false
 		var mustPubs, firedBy []int // once: publishes that must find it unfired / that fired it
 		for pid, p := range in.ops {
-			if (p.K != Pub && p.K != PubCancelled) || p.Ty != ty {
+			if (p.K != Pub && p.K != PubCancelled && p.K != PubRace) || p.Ty != ty {
 				continue
 			}
 			ev := evID(pid, p.Odd)
@@ -401,7 +427,9 @@ func (in *Inst) Check(res *vrt.Result) []vrt.Violation {
 					}
 					continue
 				}
-				must := ret[r.id] < call[pid]
+				// a publish whose context another task may cancel owes nothing (it may stop at any
+				// handler); it still delivers at most once, and never to a handler that is gone
+				must := ret[r.id] < call[pid] && p.K != PubRace
 				never := call[r.id] > ret[pid]
 				for _, x := range rem {
 					if call[r.id] < ret[x] && call[x] < ret[pid] {
@@ -442,7 +470,7 @@ func (in *Inst) Check(res *vrt.Result) []vrt.Violation {
 				if !evt.FilterAccepts(r.o.Filter, ev) || p.K == PubCancelled {
 					continue
 				}
-				if ret[r.id] < call[pid] {
+				if ret[r.id] < call[pid] && p.K != PubRace {
 					lo++
 				}
 				if call[r.id] < ret[pid] {
